@@ -1,8 +1,10 @@
 #!/usr/bin/env python3
-"""import_seed.py <prop> <k> [--also C07,...]: copy a confirmed seed from /tmp/seeds into /verif/seeded/<prop>-<k>/"""
+"""import_seed.py <prop> <k>: copy a confirmed seed from $SEEDS (default /tmp/seeds) into /verif/seeded/<prop>-<$AS or k>/"""
 import json, os, shutil, sys
 p, k = sys.argv[1], sys.argv[2]
-src = "/tmp/seeds/%s/%s" % (p, k)
+base = os.environ.get("SEEDS", "/tmp/seeds")
+src = "%s/%s/%s" % (base, p, k)
+k = os.environ.get("AS", k)
 c = json.load(open(src + "/confirm.json"))
 assert c["apply"] and c["demo_clean_rc"] == 0 and c["suite_rc"] == 0 and c["suite_failed"] == 0 and c["demo_patched_rc"] != 0, c
 dst = "/verif/seeded/%s-%s" % (p, k)
